@@ -163,6 +163,22 @@ def interleave(prog, run):
     run.rule("R-interleave", "per-setup observability rows are split block-major (stride = channels of the setup, column-major flatten) into reference / roving parts, "
              "re-based with O_mov . pinv(O_ref) . O1_ref, and assembled block by block at ii*n_DOF + [0, n_ref), then each setup's n_mov rows contiguously", 10)
     fi = astq.IndexedFn(prog.func(FN))      # zip / enumerate loops as index loops
+    # the two counts the index arithmetic is written in are known by what they ARE, whatever they are called: the number of reference
+    # channels (`<data>[0]["ref"].shape[0]`) and the list of roving-channel counts (`[<data>[i]["mov"].shape[0] for i ..]`)
+    ren = {}
+    for a_ in ast.walk(fi.node):
+        if isinstance(a_, ast.Assign) and len(a_.targets) == 1 and isinstance(a_.targets[0], ast.Name):
+            t_ = astq.src(a_.value, 200).replace('"', "'")
+            if t_.endswith("[0]['ref'].shape[0]") and a_.targets[0].id != "n_ref":
+                ren[a_.targets[0].id] = "n_ref"
+            elif isinstance(a_.value, ast.ListComp) and "['mov'].shape[0]" in t_ and a_.targets[0].id != "n_mov":
+                ren[a_.targets[0].id] = "n_mov"
+    if ren and not ({"n_ref", "n_mov"} & {x_.id for x_ in ast.walk(fi.node) if isinstance(x_, ast.Name)} - set(ren.values()) - {"n_ref", "n_mov"}):
+        class _R(ast.NodeTransformer):
+            def visit_Name(self, x_):
+                return ast.copy_location(ast.Name(id=ren[x_.id], ctx=x_.ctx), x_) if x_.id in ren else x_
+        import copy as _copy
+        fi.node = ast.fix_missing_locations(_R().visit(_copy.deepcopy(fi.node)))
     f = rel(prog.mods[fi.mod].path)
     se = symidx.SymEval(prog, fi, stop={"n_mov", "n_ref"})
     pos, _, _, _ = astq.params_of(fi.node)
@@ -254,7 +270,9 @@ def interleave(prog, run):
             if len(asg) == 1:
                 g = astq.enclosing(pm, asg[0], (ast.If,))
                 vx = astq.expr_at(fi, asg[0], asg[0].value, keep=KEEP)
-                okb = g is not None and astq.src(g.test).replace(" ", "") in ("kk==0", "0==kk") and astq.src(refm["node"], 2000) in astq.src(vx, 3000)
+                lpb = astq.enclosing(pm, asg[0], (ast.For,))
+                kb = lpb.target.id if lpb is not None and isinstance(lpb.target, ast.Name) else "kk"
+                okb = g is not None and astq.src(g.test).replace(" ", "") in (f"{kb}==0", f"0=={kb}") and astq.src(refm["node"], 2000) in astq.src(vx, 3000)
             ob("basis = reference part of the FIRST setup only", okb, f"`{bname}` assigned under `{astq.src(g.test) if asg and g is not None else '?'}`" if asg else "basis assignment not found", asg[0] if asg else None)
     # assembly stores into the global matrix
     rets = [n for n in ast.walk(fi.node) if isinstance(n, ast.Return) and isinstance(n.value, ast.Tuple)]
